@@ -272,7 +272,7 @@ ToXarray(h, f) ==
                  THEN D(h) ELSE 0
       named == IF f = "ugrid" THEN TopoNames(h) \cup Pollution("topo") ELSE {}
   IN /\ Live(h)
-     /\ Materialise(h, (IF f = "scrip" THEN Needs("face_areas") ELSE {})
+     /\ Materialise(h, (IF f = "scrip" THEN Needs("face_areas") ELSE IF f = "ugrid" THEN NodeLL ELSE {})
                         \cup (IF alias # 0 THEN { "grid_topology" } ELSE {}))
      /\ tmpl' = IF f = "ugrid" /\ Mech.topoTmpl = "shared" THEN tmpl \cup { <<"topo", h>> } ELSE tmpl
      /\ exports' = exports \cup { [h |-> h, fmt |-> f, alias |-> alias] }
@@ -318,7 +318,8 @@ Mutate(h, how) ==
   /\ Live(h) /\ ver[D(h)] < MaxMut
   /\ ver' = [ver EXCEPT ![D(h)] = @ + 1]
   /\ ideal' = [ideal EXCEPT ![h] = @ + 1]
-  /\ Materialise(h, IF how = "face_centers" THEN Needs("face_lon") \cup NodeLL ELSE {})
+  /\ Materialise(h, IF how = "face_centers" THEN Needs("face_lon") \cup NodeLL
+                     ELSE IF how \in { "setter", "inplace" } THEN NodeLL ELSE {})
   /\ Obs("Mutate", h, <<how>>, <<>>, <<>>)
   /\ UNCHANGED << ds, ball, kd, gdf, poly, line, jac, tmpl, exports >>
 
@@ -430,14 +431,16 @@ MechIntended ==
     gdfReturn |-> "copy", polyReturn |-> "copy", lineReturn |-> "copy", dataColInto |-> "copy",
     copyDs |-> "deep", ugridExport |-> "new", topoTmpl |-> "copied", jacSlot |-> "default_only" ]
 
-\* the code as read at the pinned commit plus the fix: commits recorded in known_findings.json
+\* the code as it is now (pinned commit plus the fix: commits recorded in known_findings.json): the
+\* only remaining deviation from the intended mechanism is that to_geodataframe hands out its cached
+\* frame (known finding C19-F6 / C15-F7: a pinned test asserts that identity)
 MechObserved ==
   [ treeCmp |-> { "sys", "metric" }, treeSwitch |-> { "kind" },
     gdfCmp |-> { "pe", "proj", "eng" }, gdfStore |-> { "pe", "proj", "eng" },
     polyCmp |-> { "pe", "proj" }, polyStore |-> { "pe", "proj" },
     lineCmp |-> { "pe", "proj" }, lineStore |-> { "pe", "proj" },
-    gdfReturn |-> "cached", polyReturn |-> "copy", lineReturn |-> "cached", dataColInto |-> "cached",
-    copyDs |-> "shared", ugridExport |-> "internal", topoTmpl |-> "copied", jacSlot |-> "default_only" ]
+    gdfReturn |-> "cached", polyReturn |-> "copy", lineReturn |-> "copy", dataColInto |-> "copy",
+    copyDs |-> "deep", ugridExport |-> "new", topoTmpl |-> "copied", jacSlot |-> "default_only" ]
 
 \* the code as it was before the fix: commits (kept to show that the model finds each defect)
 MechPinned ==
